@@ -30,11 +30,24 @@ type Step struct {
 }
 
 type Trace struct {
-	ID      string `json:"id"`
-	Members int    `json:"members"`
-	R       int    `json:"r"`
-	Entry   string `json:"entry"`
-	Steps   []Step `json:"steps"`
+	ID      string   `json:"id"`
+	Members int      `json:"members"`
+	R       int      `json:"r"`
+	Entry   string   `json:"entry"`
+	Steps   []Step   `json:"steps"`
+	Ps      []PsStep `json:"ps,omitempty"`
+}
+
+type PsStep struct {
+	Op     string     `json:"op"`
+	Conn   int        `json:"conn"`
+	Member int        `json:"member"`
+	Name   string     `json:"name"`
+	Count  int        `json:"count"`
+	Recv   []int      `json:"recv"`
+	Chans  [][]string `json:"chans"`
+	NumSub [][]int64  `json:"numsub"`
+	NumPat []int64    `json:"numpat"`
 }
 
 type Summary struct {
